@@ -108,6 +108,9 @@ impl<T: RealNumber, D: Distance<Vec<T>, T>> DBSCAN<T, D> {
                 // all remaining points, and only they, are noise
                 &&& g.noise_unreachable(y) //# fit-noise-is-not-density-reachable
                 &&& g.unreachable_noise(y) //# fit-remaining-points-are-noise
+                // (the conjunction of the clauses about core points and noise: by theorem_core_labels_and_noise_determined any two
+                //  labellings satisfying it agree on every core point and on the noise set -- whatever the search backend)
+                &&& g.core_spec(y, k) //# fit-core-labels-and-noise-determined
             }),
 //@enter
         proof { T::ops_total(); }
